@@ -3,6 +3,7 @@ package main
 import (
 	"fmt"
 	"os"
+	"sort"
 	"go/token"
 	"go/types"
 	"strings"
@@ -26,6 +27,29 @@ func (e *Engine) doCall(st *State, fr *Frame, res ssa.Value, c *ssa.CallCommon, 
 					args = append(args, e.get(st, fr, a))
 				}
 				e.nilCheck(st, tag, c.Pos(), "invoke")
+				if e.inModuleIface(c.Value.Type()) && len(impls) > 0 {
+					// too many implementers to fork: abstract the call, but havoc only what some
+					// implementer may write (union of their type-based modification sets)
+					m := map[string]bool{}
+					e.callMods(c, m, map[*ssa.Function]bool{})
+					if !m["*"] {
+						e.Havocked["invoke "+c.Method.FullName()+" (frame: union of implementers' writes)"]++
+						for p := range m {
+							st.heap.havocPrefix(p)
+						}
+						var results []Val
+						sig := c.Signature()
+						for i := 0; i < sig.Results().Len(); i++ {
+							v, as := freshVal("ret$"+c.Method.Name(), sig.Results().At(i).Type())
+							for _, a := range as {
+								e.fact(st, a)
+							}
+							results = append(results, v)
+						}
+						e.bind(fr, res, results)
+						return false
+					}
+				}
 				e.havocCall(st, fr, res, "invoke "+c.Method.FullName(), c.Signature(), false, append([]Val{recv}, args...))
 				return false
 			}
@@ -258,8 +282,77 @@ func (e *Engine) callFunction(st *State, fr *Frame, res ssa.Value, callee *ssa.F
 		e.Havocked[shortFn(callee)+" (uninterpreted in spec)"]++
 		return false
 	}
+	if !pureStd(callee) && !inMod {
+		// external callee: it can write only memory reachable (by type) from its arguments
+		if pf, all := extFrame(callee.Signature); !all {
+			e.Havocked[shortFn(callee)]++
+			for _, p := range pf {
+				st.heap.havocPrefix(p)
+			}
+			var results []Val
+			for i := 0; i < callee.Signature.Results().Len(); i++ {
+				v, as := freshVal("ret$"+shortFn(callee), callee.Signature.Results().At(i).Type())
+				for _, a := range as {
+					e.fact(st, a)
+				}
+				results = append(results, v)
+			}
+			e.bind(fr, res, results)
+			return false
+		}
+	}
 	e.havocCall(st, fr, res, shortFn(callee), callee.Signature, pureStd(callee), args)
 	return false
+}
+
+// extFrame computes the heap-array prefixes reachable by type from the parameters (and
+// receiver) of an external function; all=true when an interface, function or channel is
+// reachable (anything may then be written).
+func extFrame(sig *types.Signature) (prefixes []string, all bool) {
+	seen := map[types.Type]bool{}
+	set := map[string]bool{}
+	var walk func(t types.Type)
+	walk = func(t types.Type) {
+		if all || seen[t] {
+			return
+		}
+		seen[t] = true
+		switch u := t.Underlying().(type) {
+		case *types.Basic:
+			if u.Kind() == types.UnsafePointer {
+				all = true
+			}
+		case *types.Pointer:
+			set[typeName(u.Elem())+"|"] = true
+			walk(u.Elem())
+		case *types.Slice:
+			set["[]"+typeName(u.Elem())+"|"] = true
+			walk(u.Elem())
+		case *types.Array:
+			walk(u.Elem())
+		case *types.Struct:
+			for i := 0; i < u.NumFields(); i++ {
+				walk(u.Field(i).Type())
+			}
+		case *types.Map:
+			set[mapPrefix(u)] = true
+			walk(u.Key())
+			walk(u.Elem())
+		default:
+			all = true
+		}
+	}
+	if sig.Recv() != nil {
+		walk(sig.Recv().Type())
+	}
+	for i := 0; i < sig.Params().Len(); i++ {
+		walk(sig.Params().At(i).Type())
+	}
+	for p := range set {
+		prefixes = append(prefixes, p)
+	}
+	sort.Strings(prefixes)
+	return prefixes, all
 }
 
 func pureStd(fn *ssa.Function) bool {
@@ -554,6 +647,16 @@ func (e *Engine) reeval(st *State, fr *Frame, v ssa.Value, depth int) Val {
 			case *types.Map:
 				return Val{e.mapLen(st, t, a[0])}
 			}
+		}
+		if callee, ok := x.Call.Value.(*ssa.Function); ok && len(callee.Blocks) > 0 && callee.Signature.Results().Len() == 1 &&
+			strings.HasSuffix(e.W.Fset.Position(callee.Pos()).Filename, "zz_verif_gen.go") && !e.isUninterp(callee) &&
+			len(leavesOf(callee.Signature.Results().At(0).Type())) == 1 {
+			// a specification function applied inside old(): evaluate it in the pre-state heap
+			var args []Val
+			for _, a := range x.Call.Args {
+				args = append(args, e.reeval(st, fr, a, depth+1))
+			}
+			return Val{e.evalSpecFn(st, callee, args, nil)}
 		}
 		if callee, ok := x.Call.Value.(*ssa.Function); ok {
 			if fc := e.W.ByFunc[callee]; fc != nil && fc.Pure {
